@@ -31,6 +31,11 @@ func cases(r *evid.Run) []chainsim.Case {
 	for i := 0; i < n; i++ {
 		out = append(out, chainsim.Case{Index: i, Seed: uint64(r.Seed)*1_000_003 + uint64(i), Profile: profiles[i%len(profiles)], Blocks: blocks})
 	}
+	// Key manager traffic (secrets and CHURP methods on a test key manager runtime).
+	for j, k := 0, r.Pick(2, 10); j < k; j++ {
+		i := len(out)
+		out = append(out, chainsim.Case{Index: i, Seed: uint64(r.Seed)*1_000_003 + uint64(i), Profile: "keymanager", Blocks: blocks})
+	}
 	return out
 }
 
@@ -292,6 +297,7 @@ func runCase(c chainsim.Case, rep chainsim.Reporter, scratch string) {
 		rep.Count("tx."+k, int64(n))
 		ok += n
 	}
+	chainsim.ReportKeyManager(h, rep)
 	// Non-trivial: a history with >= 3 epoch transitions in which every path was used.
 	if h.EpochTransitions >= 3 && len(h.PathUsed) >= 5 && h.Height >= int64(c.Blocks)/2 {
 		rep.Nontrivial(fmt.Sprintf("%s/%d", c.Profile, c.Seed))
